@@ -51,9 +51,12 @@ def _inputs(ctx, lmax):
 def h_roundtrip(ctx, kind, lmax):
     c = _mc(ctx)
     L, p, key = _inputs(ctx, lmax)
-    ct = _enc(c, kind, p, key)
+    handed = p
+    if ctx.flag("content_handed_over_as_a_bytearray"):
+        handed = SymSeq(list(p.items), "bytearray") if H.sym(ctx) else bytearray(p)
+    ct = _enc(c, kind, handed, key)
     out = _dec(c, kind, ct, key)
-    return [("decrypt(encrypt(p))==p", H.rope_eq(out, p)), ("result-is-bytes", not isinstance(out, SymSeq) and isinstance(out, bytes) or isinstance(out, SymSeq))]
+    return [("the caller's buffer is left as it was", H.rope_eq(handed, p)), ("decrypt(encrypt(p))==p", H.rope_eq(out, p)), ("result-is-bytes", not isinstance(out, SymSeq) and isinstance(out, bytes) or isinstance(out, SymSeq))]
 
 
 def _ref_terms(p, L, key, kind):
@@ -177,7 +180,8 @@ def h_concrete_lengths(ctx, kind):
     c = mc.MediaCipher()
     key = H.pattern_bytes("K", 32)
     bad = []
-    for L in range(0, 81):
+    # every length 0..80, and the lengths around multiples of 64 KiB (where implementations that work in slices have their seams)
+    for L in list(range(0, 81)) + list(range(65536 - 18, 65536 + 2)) + list(range(2 * 65536 - 17, 2 * 65536 + 1)):
         p = H.pattern_bytes("P", L)
         try:
             ct = _enc(c, kind, p, key)
